@@ -2170,8 +2170,10 @@ class SourceCatalog:
         else:
             xcen = self._xcentroid
             ycen = self._ycentroid
+            # float output: an integer background array would give a
+            # truncated integer result that cannot hold NaN
             bkg = map_coordinates(self._background, (xcen, ycen), order=1,
-                                  mode='nearest')
+                                  mode='nearest', output=float)
 
             mask = np.isfinite(xcen) & np.isfinite(ycen)
             bkg[~mask] = np.nan
